@@ -303,6 +303,9 @@ fn run_case(rec: &mut Recorder, c: &Case) {
     rec.bump(&format!("place.{:?}", c.place));
     let key = format!("{:?}|{dt_name}|{:?}|{:?}", c.host, c.conv, c.place);
     rec.nontrivial(key.as_bytes());
+    if rec.want_sample() && rec.hist.get("place.Inside").copied().unwrap_or(0) % 5000 == 7 {
+        rec.sample(Json::obj().with("case", Json::s(&key)).with("limits", Json::s(&format!("{limits:?}"))).with("expected_range", Json::s(&format!("{exp:?}"))));
+    }
     let report = match guarded(|| a2l.check()) {
         Ok(r) => r,
         Err((sig, detail)) => {
